@@ -273,15 +273,24 @@ def install_contracts(hx, res):
         res.count('icontract_evaluations')
         return type(result) is str
     for cls, fn in ((I.BooleanInput, bool_result), (I.IntegerInput, int_result), (I.FloatInput, float_result), (I.StringInput, str_result), (I.SSNInput, str_result)):
-        orig = cls.__dict__['value']
-        saved.append((cls, orig))
-        cls.value = icontract.ensure(fn, error=lambda: ContractBroken(f'{cls.__name__}.value result type'))(orig)
+        # the class may inherit value() from a shared base (whatever the class layout of the tree under test is): the
+        # contract is put on the class itself, delegating to whatever value() resolves to, and taken off again afterwards
+        own = cls.__dict__.get('value', _ABSENT)
+        target = own if own is not _ABSENT else (lambda self, string, _c=cls: super(_c, self).value(string))
+        saved.append((cls, own))
+        cls.value = icontract.ensure(fn, error=lambda: ContractBroken(f'{cls.__name__}.value result type'))(target)
     return saved
+
+
+_ABSENT = object()
 
 
 def uninstall(saved):
     for cls, orig in saved:
-        cls.value = orig
+        if orig is _ABSENT:
+            delattr(cls, 'value')
+        else:
+            cls.value = orig
 
 
 def run_shard(spec, tier, seed):
